@@ -77,6 +77,17 @@ fn hmac_input(with_proto: bool) -> HmacGetSecretInput {
 }
 fn auth_data(variant: u8) -> AuthenticatorData {
     let ad = AuthenticatorData::new("example.com", Some(u32::from(variant) * 1000 + 5)).set_flags(Flags::UP | Flags::UV);
+    if variant == 7 {
+        // extension outputs (an arbitrary CBOR value) nested seven containers deep
+        let mut v = Cbor::Integer(1.into());
+        for k in 0..7 {
+            v = if k % 2 == 0 { Cbor::Array(vec![v]) } else { Cbor::Map(vec![(Cbor::Text("n".into()), v)]) };
+        }
+        let mut ad = ad;
+        ad.extensions = Some(Cbor::Map(vec![(Cbor::Text("x-nested".into()), v)]));
+        ad.flags |= Flags::ED;
+        return ad;
+    }
     if variant >= 1 {
         let (x, y) = public_xy_from_scalar(&fixed_scalar(1));
         let key = match variant {
@@ -410,6 +421,7 @@ pub fn cases(tier: Tier) -> Vec<Case> {
             // non-canonical order / with extra members - round trip only
             v.push(Case { ty: ty.into(), pattern, variant: 5, mutation: "base".into() });
             v.push(Case { ty: ty.into(), pattern, variant: 6, mutation: "base".into() });
+            v.push(Case { ty: ty.into(), pattern, variant: 7, mutation: "base".into() });
             // variant 4: nested optional structures and lists present but empty
             for variant in [0u8, 1, 2, 4] {
                 let mk = |m: String| Case { ty: ty.into(), pattern, variant, mutation: m };
